@@ -209,7 +209,40 @@ def eval_expected(mod, exp, default_none_ok=True):
     return v
 
 
+def cmd_a(x: int = 1):
+    return ("cmd_a", x)
+
+
+def cmd_b(y: int = 2):
+    return ("cmd_b", y)
+
+
+def failing_cli_with_default_config(ctx, i, rng):
+    """a CLI over several components with a default config file, whose subcommand is chosen by --config and whose parse fails
+    while the subcommand is handled: whatever it had set up must be gone for the CLIs built afterwards in this process"""
+    dcf = os.path.join(ctx.workdir, "c12_defaults.json")
+    with open(dcf, "w") as f:
+        json.dump({"cmd_a": {"x": 7}}, f)
+    bad = rng.choice(['{"cmd_a": {"x": "not-an-int"}}', '{"cmd_a": {"zz": 1}}', '{"subcommand": "cmd_a", "cmd_a": {"x": [1]}}', "ENV"])
+    if bad == "ENV":
+        # the failure comes from the environment of the subcommand that the config chose
+        from vf.util import environ
+
+        with environ({"APP_CMD_A__X": "many"}):
+            o = call(auto_cli, [cmd_a, cmd_b], args=["--config", '{"cmd_a": {}}'], default_config_files=[dcf], default_env=True, env_prefix="APP", exit_on_error=False)
+    else:
+        o = call(auto_cli, [cmd_a, cmd_b], args=["--config", bad], default_config_files=[dcf], exit_on_error=False)
+    ctx.count("ev.failing_cli_with_default_config." + ("rejected" if o.rejected else o.kind))
+    # the same components without default config file: signature defaults, nothing of the earlier CLI
+    o2 = call(auto_cli, [cmd_a, cmd_b], args=["cmd_a"], exit_on_error=False)
+    ctx.count("mon.cli_after_failed_cli")
+    if not o2.accepted or o2.value != ("cmd_a", 1):
+        ctx.violation("auto_cli", "later-cli-influenced-by-an-earlier-failed-cli", dict(failed=o.brief(), later=o2.brief()))
+
+
 def case(ctx, i, rng):
+    if i % 9 == 4:
+        failing_cli_with_default_config(ctx, i, rng)
     kind, src, comps, entry = gen_program(rng)
     if kind == "functions_dict":
         # parameters of dict functions: re-read from source is unnecessary; regenerate deterministic small signatures
@@ -341,7 +374,7 @@ def case(ctx, i, rng):
                     return
         # omitting a required parameter must fail
         reqs = [p for p in comp["params"] if p["default"] is None and not p["ann"].startswith("Optional")]
-        if reqs and ctor is None:
+        if reqs and (ctor is None or not as_positional):
             victim = reqs[-1]
             argv2 = list(full)
             for k, a in enumerate(full):
@@ -349,7 +382,7 @@ def case(ctx, i, rng):
                     argv2 = full[:k] + full[k + 2 :]
                 elif a.startswith(f"--{victim['name']}="):
                     argv2 = full[:k] + full[k + 1 :]
-            if victim["name"] in cfgm or victim["name"] in cfg_all:
+            if victim["name"] in cfgm or victim["name"] in cfg_all or (sub and isinstance(cfg_all.get(sub[0]), dict) and victim["name"] in cfg_all[sub[0]]):
                 argv2 = full  # given through the config: nothing to omit on the command line
             elif as_positional:
                 # drop the last positional
@@ -363,6 +396,8 @@ def case(ctx, i, rng):
                 mod.CALLS.clear()
                 o2 = call(auto_cli, comp_obj, args=argv2, as_positional=as_positional, exit_on_error=False)
                 ctx.count("mon.required_omitted")
+                if ctor is not None:
+                    ctx.count("st.required_method_parameter_omitted" + ("_nested_component" if prefix else ""))
                 if o2.accepted and mod.CALLS:
                     ctx.violation("auto_cli", f"required-parameter-omitted-accepted/{kind}", dict(w, argv_without=argv2, calls=short(mod.CALLS)))
         if i < 3:
